@@ -160,6 +160,7 @@ def plan(ctx):
     units += [("shared", d, i, 4) for d in DRAFTS for i in range(4)]
     units += [("ordered", d, i, 4) for d in DRAFTS for i in range(4)]
     units += [("mutated", d, i, 2) for d in DRAFTS for i in range(2)]
+    units += [("long", d, pi) for d in DRAFTS for pi in range(len(LONG_PAIRS))]
     for d in ((7, 3) if ctx.tier == "quick" else DRAFTS):
         for ci in range(len(T_CASES)):
             for form in (("enum1", "const", "uniqueItems") if d >= 6 else ("enum1", "uniqueItems")):
@@ -169,7 +170,10 @@ def plan(ctx):
                         units.append(("threads", d, ci, form, shared, "line", 1))
     return {
         "units": units,
-        "rule": ("T: two real threads validate the SAME instance object against the SAME schema object (one validator "
+        "rule": ("L: arrays of 9, 17, 33, 65, 129, 257 (thorough: 513, 1025) elements -- mixed containers and scalars, "
+                 "pairwise different except one pair out of 10 (1 / 1.0 inside arrays and objects, key order, true / 1, "
+                 "[] / {}) placed adjacent, at the ends, or around the middle -- through uniqueItems and as enum "
+                 "member lists.  T: two real threads validate the SAME instance object against the SAME schema object (one validator "
                  "or two) under the baton scheduler, every schedule with <= 1 preemption at call (and line) "
                  "granularity, 4 container pairs x enum / const / uniqueItems.  M: for every ordered pair of the 40-value sub-universe one array object [a, b] and one validator: "
                  "validated as built, after the second element was replaced in place by a copy of the first, after "
@@ -774,9 +778,65 @@ def run_threads(unit, ctx):
             "counters": {"violating_executions": bag.total, "thread_schedules": r["schedules"]}}
 
 
+# ---- long arrays: the same relation at every size ----------------------------------------------------------
+LONG_SIZES = [9, 17, 33, 65, 129, 257]
+LONG_PAIRS = [([1], [1.0]), ({"k": 1}, {"k": 1.0}), ([100], [1e2]), ([[0]], [[-0.0]]), ({"a": 1, "b": 2}, {"b": 2, "a": 1}),
+              ([True], [1]), ({"k": [1, {"z": 0}]}, {"k": [1.0, {"z": 0}]}), (5, 5.0), ("a", "a"), ([], {})]
+
+
+def long_arrays(n, pi, layout):
+    """An array of n elements: n-2 pairwise different fillers (containers and scalars mixed) and the pair pi placed
+    per layout: adjacent at the front / far apart (first and last) / around the middle."""
+    a, b = LONG_PAIRS[pi]
+    fill = []
+    i = 0
+    while len(fill) < n - 2:
+        fill.append([{"price": 50 + i}, [10 + i], "s%d" % i, i + 1000, {"q": [i]}][i % 5])
+        i += 1
+    if layout == "adjacent":
+        return [fresh_copy(a), fresh_copy(b)] + fill
+    if layout == "ends":
+        return [fresh_copy(a)] + fill + [fresh_copy(b)]
+    mid = len(fill) // 2
+    return fill[:mid] + [fresh_copy(a)] + fill[mid:mid + 3] + [fresh_copy(b)] + fill[mid + 3:]
+
+
+def run_long(unit, ctx):
+    _, d, pi = unit
+    bag = Bag()
+    ev = 0
+    outcomes = {}
+    a, b = LONG_PAIRS[pi]
+    eq = equality.jeq(a, b)
+    for n in LONG_SIZES + ([513, 1025] if ctx.thorough else []):
+        for layout in ("adjacent", "ends", "middle"):
+            arr = long_arrays(n, pi, layout)
+            g = observe(UNIQ[d], arr)
+            exp = not eq
+            ev += 1
+            oc = "long:%d:%s" % (n, "unique" if exp else "duplicate")
+            outcomes[oc] = outcomes.get(oc, 0) + 1
+            if g is not exp:
+                bag.add({"signature": "C08|long-array|%s|%s" % (kind_of("uniqueItems", g, exp), diffclass(a, b)[0]),
+                         "size": n, "case": {"draft": d, "form": "long", "n": n, "pair": pi, "layout": layout},
+                         "detail": {"observed": g, "expected_valid": exp, "pair": [a, b]}})
+            # the same values through enum with n members and const on the long array itself
+            members = long_arrays(n, pi, layout)
+            v = CLS[d]({"enum": members})
+            g2 = observe(v, fresh_copy(b))
+            ev += 1
+            if g2 is not True:
+                bag.add({"signature": "C08|long-enum|%s" % kind_of("enum1", g2, True), "size": n,
+                         "case": {"draft": d, "form": "long", "n": n, "pair": pi, "layout": layout}, "detail": {"observed": g2}})
+    return {"evaluations": ev, "nontrivial": ev, "violations": bag.all(), "samples": [], "outcomes": outcomes,
+            "counters": {"violating_executions": bag.total, "long_array_cases": ev}}
+
+
 def run_unit(unit, ctx):
     if unit[0] == "pairs":
         return run_pairs(unit, ctx)
+    if unit[0] == "long":
+        return run_long(unit, ctx)
     if unit[0] == "threads":
         return run_threads(unit, ctx)
     if unit[0] == "mutated":
@@ -793,6 +853,11 @@ def replay(case, ctx):
     if case["form"] == "check_schema":
         ok = check_schema_ok(d, case["schema"])
         return {"reproduced": not ok, "check_schema_accepts": ok}
+    if case["form"] == "long":
+        a, b = LONG_PAIRS[case["pair"]]
+        arr = long_arrays(case["n"], case["pair"], case["layout"])
+        g = observe(UNIQ[d], arr)
+        return {"reproduced": g is not (not equality.jeq(a, b)), "observed": g}
     if case["form"] == "threads":
         import os
         import jsonschema
